@@ -701,10 +701,13 @@ func (p *pp) printArg(arg interface{}, verb rune) {
 		defer p.startSafeOverride().restore()
 	} else if t == safeWrapperType {
 		defer p.startSafeOverride().restore()
-		arg = arg.(w.SafeWrapper).GetValue()
+		// The content may itself be a wrapper or of a registered type.
+		p.printArg(arg.(w.SafeWrapper).GetValue(), verb)
+		return
 	} else if t == unsafeWrapperType {
 		defer p.startUnsafeOverride().restore()
-		arg = arg.(w.UnsafeWrap).GetValue()
+		p.printArg(arg.(w.UnsafeWrap).GetValue(), verb)
+		return
 	}
 
 	if _, ok := arg.(i.SafeValue); ok {
